@@ -55,6 +55,19 @@ SEEDS = {
              "a reader pinned at e1 still scanning, a commit deleting its row-sets at e2 > e1, another version pinned at >= e2, and a third pin released (waking the vacuum)", ["C08"]),
     "C10b": ("C10", "src/storage/secondary/manifest.rs drop_table_inner: the manifest write happens before the 'table still exists' check (apply_drop_table)",
              "two sessions dropping the same table, the second binding before the first finishes: two DropTable records, the directory cannot be reopened", ["C10"]),
+    # ---- third round (on the repaired tree; variant hints again)
+    "C03c": ("C03", "src/storage/secondary/storage.rs bootstrap: the manifest rewritten at boot drops DropTable records and keeps a CreateTable only if a table of that NAME still exists",
+             "a table dropped and re-created under the same name in a manifest that has not been compacted yet, then two reopens (the second replays two CreateTable records for one name)", ["C03"]),
+    "C05b": ("C05", "src/storage/secondary/merge_iterator.rs replace_pending_data: swapped arguments of compare_in_heap (the same slip as seed C07, found independently)",
+             "a primary-key table with >= 3 row-sets whose key ranges interleave; after a compaction the row-set itself is unsorted and key-range scans lose rows", ["C05", "C07", "C12"]),
+    "C07b": ("C07", "src/storage/secondary/compactor.rs compact_table: DeleteDV records built from a map keyed by row-set id (one delete vector per compacted row-set is logged, the others stay)",
+             "a row-set with >= 2 delete vectors, a second row-set, every row deleted, a compaction, two reopens, and an INSERT that lands in the re-issued row-set id", ["C07", "C03", "C05"]),
+    "C09b": ("C09", "src/storage/secondary/transaction.rs commit_inner: a DELETE is refused only if NONE (instead of ANY) of its target row-sets has been replaced",
+             "a DELETE that pins its snapshot while the compactor holds the table, and a compaction that replaces only some of the row-sets the DELETE touches (one row-set above the size budget)", ["C09"]),
+    "C15b": ("C15", "src/executor/mod.rs Builder::spawn: the error for a panicked operator is sent with try_broadcast (dropped when the output channel is full or inactive)",
+             "a panic in an operator whose 16-slot output channel is full: the late-polled side of a join with >= 17 chunks, panic exactly at the 17th", ["C15"]),
+    "C18b": ("C18", "src/storage/secondary/column.rs get_block: the checksum is verified after the block has entered the cache (and only on a cache miss)",
+             "altered bytes in a .col block and at least two reads of it through one open database: the first read fails, later reads are served from the cache unchecked", ["C18"]),
 }
 
 
